@@ -12,7 +12,7 @@ def kindOfJson (j : Json) : Except String OpKind := do
   match (← arr j).toList with
   | [t] =>
     match (← str t) with
-    | "copy" => pure .copy | "generic" => pure .generic | "other" => pure .other
+    | "copy" => pure .copy | "generic" => pure .generic | "other" => pure .other | "corecall" => pure .coreCall
     | s => throw s!"bad kind {s}"
   | [t, a, fg, ms] =>
     if (← str t) == "stream" then return .stream (← accOfJson a) (← bool fg) (← listOf bool ms)
@@ -24,6 +24,7 @@ def accToJson : Acc → Json
 
 def kindToJson : OpKind → Json
   | .copy => Json.arr #["copy"] | .generic => Json.arr #["generic"] | .other => Json.arr #["other"]
+  | .coreCall => Json.arr #["corecall"]
   | .stream a fg ms => Json.arr #["stream", accToJson a, Json.bool fg, jList Json.bool ms]
 
 mutual
@@ -104,19 +105,48 @@ def errName : RuleErr → String
   | .assertion => "AssertionError"
   | .notRegistered => "Exception"
 
-/-- args {"nb", "func", "fixed"} -> {"func", "decl"} | {"raised"} -/
+/-- optional "rules": true = `dispatch_to_compute` with fixes/FC14a (default false = upstream) -/
+def rulesArg (j : Json) : Except String Bool :=
+  match j.getObjVal? "rules" with
+  | .ok v => bool v
+  | .error _ => pure false
+
+/-- args {"nb", "func", "fixed", "rules"?} -> {"func", "decl"} | {"raised"} -/
 def dispatchH : Handler := fun j => do
+  let r ← rulesArg j
   let nb ← nat (← field j "nb")
   let f ← funcOfJson (← field j "func")
   let fixed ← bool (← field j "fixed")
   if nb == 0 then throw "nb = 0 is outside the model"
   if fixed then
-    match dispatchE nb f with
+    match dispatchE r nb f with
     | .error e => return Json.mkObj [("raised", Json.str (errName e))]
-    | .ok g => return Json.mkObj [("func", funcToJson g), ("decl", Json.bool (declInserted nb f))]
+    | .ok g => return Json.mkObj [("func", funcToJson g), ("decl", Json.bool (declInserted r nb f))]
   else
-    let g := dispatch false nb f
-    return Json.mkObj [("func", funcToJson g), ("decl", Json.bool (!g.pre.isEmpty))]
+    let g := dispatch r false nb f
+    return Json.mkObj [("func", funcToJson g), ("decl", Json.bool (!g.pre.isEmpty || changedBlocks isCoreCall f.blocks))]
+
+def itemOfJson (j : Json) : Except String Item :=
+  match j.getStr? with
+  | .ok "coredecl" => pure .coreDecl
+  | .ok s => throw s!"bad item {s}"
+  | .error _ => do return .fn (← funcOfJson (← field j "fn"))
+
+def itemToJson : Item → Json
+  | .coreDecl => Json.str "coredecl"
+  | .fn f => Json.mkObj [("fn", funcToJson f)]
+
+/-- args {"nb", "items", "rules"?, "declfix"?} -> {"items"} | {"raised"} : the whole pass on a module (fixed tree) -/
+def moduleH : Handler := fun j => do
+  let r ← rulesArg j
+  let declFix ← (match j.getObjVal? "declfix" with | .ok v => bool v | .error _ => pure false)
+  let nb ← nat (← field j "nb")
+  let items ← listOf itemOfJson (← field j "items")
+  if nb == 0 then throw "nb = 0 is outside the model"
+  match dispatchModuleE r declFix nb items with
+  | .error (.rule e) => return Json.mkObj [("raised", Json.str (errName e))]
+  | .error .detachedDecl => return Json.mkObj [("raised", Json.str "ValueError")]
+  | .ok out => return Json.mkObj [("items", jList itemToJson out)]
 
 /-- args {"func", "core", "seed", "fuel", "entry"} -> executed op ids under `stdOrc seed` -/
 def runH : Handler := fun j => do
@@ -139,7 +169,8 @@ def resToJson : Except RuleErr Bool → Json
 /-- args {"kind"} -> {"dm", "cp"} -/
 def rulesH : Handler := fun j => do
   let k ← kindOfJson (← field j "kind")
-  return Json.mkObj [("dm", resToJson (ruleDm k)), ("cp", resToJson (ruleCp k))]
+  let r ← rulesArg j
+  return Json.mkObj [("dm", resToJson (ruleDm k)), ("cp", resToJson (ruleCp r k))]
 
 /-- args {"func", "nb", "core"} -> ids of the original trace the rule allows on `core` -/
 def filteredH : Handler := fun j => do
@@ -149,7 +180,8 @@ def filteredH : Handler := fun j => do
   let seed ← nat (← field j "seed")
   let fuel ← nat (← field j "fuel")
   let entry ← nat (← field j "entry")
-  return jList jNat (((runF core (stdOrc seed) f fuel entry).filter (allowed nb (coreOf f core))).map (·.id))
+  let r ← rulesArg j
+  return jList jNat (((runF core (stdOrc seed) f fuel entry).filter (allowed r nb (coreOf f core))).map (·.id))
 
 /-- args {"name", "tys"} -> [bool] : `matchesOf` (the model's copy of the extension kernel table) -/
 def matchesH : Handler := fun j => do
@@ -159,6 +191,6 @@ def matchesH : Handler := fun j => do
 
 def handlers : List (String × Handler) :=
   [("c14.dispatch", dispatchH), ("c14.run", runH), ("c14.pin", pinH), ("c14.rules", rulesH),
-   ("c14.filtered", filteredH), ("c14.matches", matchesH)]
+   ("c14.filtered", filteredH), ("c14.matches", matchesH), ("c14.module", moduleH)]
 
 end SnaxVerif.Drv.C14
